@@ -20,6 +20,8 @@ def hellinger(x, y):
         return 0.0
     elif l1_norm_x == 0 or l1_norm_y == 0:
         return 1.0
+    elif result > np.sqrt(l1_norm_x * l1_norm_y):
+        return 0.0
     else:
         return np.sqrt(1 - result / np.sqrt(l1_norm_x * l1_norm_y))
 
